@@ -1047,3 +1047,72 @@ func (c *Ctx) rangeClosedAndWaited(rule string, funcs []*FuncInfo, clause string
 	}
 	return
 }
+
+// NIL-NIL: a function of the readers that returns (pointer, error) does not return `nil, err`
+// where the closest test of err on the path says that err is nil (`if err == nil { return nil, err }`
+// - an inverted error test): the caller would receive neither a result nor an error.
+func (c *Ctx) nilNil(rule string, funcs []*FuncInfo, clause string) (sites, viol int) {
+	for _, fi := range funcs {
+		if fi.Decl.Body == nil || fi.Decl.Type.Results == nil {
+			continue
+		}
+		sig := fi.Obj.Type().(*types.Signature)
+		if sig.Results().Len() != 2 || !isErrorType(sig.Results().At(1).Type()) {
+			continue
+		}
+		switch sig.Results().At(0).Type().Underlying().(type) {
+		case *types.Pointer, *types.Map, *types.Slice, *types.Interface:
+		default:
+			continue
+		}
+		info := fi.Pkg.TypesInfo
+		ast.Inspect(fi.Decl.Body, func(n ast.Node) bool {
+			if _, isLit := n.(*ast.FuncLit); isLit {
+				return false
+			}
+			ret, ok := n.(*ast.ReturnStmt)
+			if !ok || len(ret.Results) != 2 {
+				return true
+			}
+			if id, isId := unparen(ret.Results[0]).(*ast.Ident); !isId || id.Name != "nil" {
+				return true
+			}
+			ev := identObj(info, ret.Results[1])
+			if ev == nil || !isErrorType(ev.Type()) {
+				return true
+			}
+			sites++
+			if c.succeedsOnPath(info, fi.Decl.Body, ret) {
+				viol++
+				c.Violation(rule, fmt.Sprintf("%s/return nil,%s", funcName(fi.Obj), ev.Name()), ret.Pos(), fmt.Sprintf("`%s` is reached where the test of %s closest to it says that %s is nil: the caller receives no result and no error", c.src(ret), ev.Name(), ev.Name())).Clause = clause
+			}
+			return true
+		})
+	}
+	return
+}
+
+// WRITES: reference count of the write calls of the Nexus and PhyloXML writers, per function (a
+// deleted write - a keyword, a closing tag, the trees themselves - lowers it).
+func (c *Ctx) writerWrites(rule string, funcs []*FuncInfo, clause string) int {
+	n := 0
+	for _, fi := range funcs {
+		if fi == nil || fi.Decl.Body == nil {
+			continue
+		}
+		info := fi.Pkg.TypesInfo
+		per := 0
+		for _, call := range callsIn(fi.Decl.Body, true) {
+			fn := calleeOf(info, call)
+			if fn == nil {
+				continue
+			}
+			if fn.Name() == "WriteString" || fn.Name() == "Write" || fn.Name() == "WriteByte" || fn.Name() == "WriteRune" || strings.HasPrefix(fn.Name(), "Fprint") {
+				n++
+				per++
+				c.OK(rule, fmt.Sprintf("%s/write#%d", funcName(fi.Obj), per), call.Pos(), "a piece of the document is written here").Clause = clause
+			}
+		}
+	}
+	return n
+}
